@@ -9,7 +9,9 @@ Case lines (every string argument hex, "-" = empty; integers decimal):
   getnow <loc> <tok> <ttlNs> <key> <absent|p<bodyhex>> <nominalNowNs>
   geturl <rawpath> <none|authheader> <signing> <ttlNs> <key> <absent|p<bodyhex>> <nominalNowNs>
   kcsign / kcverify: as sign / verify, run through sdk/go/keepclient
-  getremote <loc> <tok> <configured remote ids|-> <ttlNs> <key> <absent|p<bodyhex> at the remote> <nominalNowNs>
+  getremote <loc> <tok> <configured remote ids|-> <ttlNs> <key> <absent|p<bodyhex> at the remote> <nominalNowNs> [<mode>]
+      mode: what the stub remote Keep service does with every request: ok (serve what it holds) | a status
+      code (403, 404, 408, 429, 5xx) | drop (close the connection) | short (200 with a 1-byte body)
   put <body> <tok> <tok2> <signing> <ttlNs> <key> <nominalNowNs>
 
 Time: the Go code reads the real clock. `verify`/`get` cases only carry expiry fields that are
@@ -224,6 +226,7 @@ def oracle(case, impl):
     if op == "getremote":
         # +R without +A: data may only come from the remote cluster, never from a local volume
         loc = U(f[1])
+        mode = f[8] if len(f) > 8 else "ok"
         left, _, seen = impl.partition(" | ")
         g = left.split(" ")
         if g[0] == "200" and b"+A" not in loc:
@@ -232,8 +235,10 @@ def oracle(case, impl):
                 return "GET returned data that does not belong to the requested hash"
             if seen == "-" and body != b"":
                 return "keepstore returned block data for a locator without a local signature without asking the remote cluster"
-            if seen != "-" and REMOTE_BY_HASH.get(loc[:32]) != body:
-                return "block data returned on the remote-proxy path is not what the remote cluster holds"
+            served = REMOTE_BY_HASH.get(loc[:32]) if mode == "ok" else None    # what the remote actually sent
+            if seen != "-" and served != body:
+                return ("keepstore returned block data for a locator without a local signature although the remote "
+                        "cluster did not deliver it (remote: %s)" % (mode if mode != "ok" else "block not held"))
         return None
     if op == "geturl":
         hdr, signing, ttl, key = (None if f[2] == "none" else U(f[2])), f[3] == "1", int(f[4]), U(f[5])
@@ -690,7 +695,9 @@ def g_manifest(rng):
         out += rng.choice([b" ", b"\n", b"\t ", b"\r\n"])
     for _ in range(rng.randint(1, 4)):
         sep = lambda: b" " if rng.random() < 0.85 else rng.choice([b"  ", b"\t", b" \t ", b"\x0c", b"\r", b" \r"])
-        name = rng.choice([b".", b"./dir", b"./a\\040b", b"./" + ("%032x" % rng.getrandbits(128)).encode(), b"./\xc3\xa9"])
+        hx = lambda n=32: ("%0*x" % (n, rng.getrandbits(4 * n))).encode()
+        name = rng.choice([b".", b"./dir", b"./a\\040b", b"./" + hx(), b"./\xc3\xa9",
+                           b"./by-md5/" + hx(), b"./" + hx() + b".d/x", b"./sha1-" + hx(40), b"./" + hx(64) + b"+K@abcde"])
         if rng.random() < 0.05:
             name = ("%032x" % rng.getrandbits(128)).encode() + rng.choice([b"", b"x", b"+x", b".txt"])   # malformed: name looks like a block
         out += name
@@ -705,7 +712,7 @@ def g_manifest(rng):
                 loc = loc[:32] + rng.choice([b"0", b"abc", b"g", b"\xff", b"\x0b"]) + loc[32:]
             out += sep() + loc
         for _ in range(rng.randint(1, 3)):
-            out += sep() + b"%d:%d:" % (rng.randrange(100), rng.randrange(100)) + rng.choice([b"foo.txt", b"a\\040b", b"+A", b"x+Afoo", b"\xc3\xa9", ("%032x" % rng.getrandbits(128)).encode()])
+            out += sep() + b"%d:%d:" % (rng.randrange(100), rng.randrange(100)) + rng.choice([b"foo.txt", b"a\\040b", b"+A", b"x+Afoo", b"\xc3\xa9", hx(), hx() + b".fastq", hx(40), b"d/" + hx() + b"+3", b"x-" + hx() + b"+Afoo"])
         out += rng.choice([b"\n", b"\n", b"\n", b"\r\n", b"", b" \n", b"\n\n"])
     return out
 
@@ -849,7 +856,7 @@ def gen_remote(rng, tier):
     """the remote-proxy exit of handleGET: locators with +R and without +A"""
     cases = []
     sigch = "abcdef0123456789"
-    for _ in range(120 if tier == "quick" else 3000):
+    for _ in range(160 if tier == "quick" else 4000):
         r = rng.random()
         if r < 0.45:
             h = rng.choice(list(REMOTE_BY_HASH))
@@ -905,8 +912,15 @@ def gen_remote(rng, tier):
         rpresent = "absent" if body is None else "p" + body.hex()
         if b"/" in loc or b"+A" in loc or not safe_for_clock(loc):
             continue
-        cases.append(f"getremote {H(loc)} {H(tok)} {remotes} {g_ttl(rng)} {H(g_key(rng) or b'k')} {rpresent} {NOMINAL_NOW_NS}")
+        # what the remote cluster does: mostly healthy; otherwise a refusal or a fault on every request
+        mode = "ok" if rng.random() < 0.55 else rng.choice(REMOTE_MODES)
+        if mode == "short" and not (len(parts) > 1 and re.fullmatch(rb"[0-9]{1,18}", parts[1]) and int(parts[1]) != 1):
+            mode = "503"
+        cases.append(f"getremote {H(loc)} {H(tok)} {remotes} {g_ttl(rng)} {H(g_key(rng) or b'k')} {rpresent} {NOMINAL_NOW_NS} {mode}")
     return cases
+
+
+REMOTE_MODES = ["403", "404", "401", "408", "429", "500", "502", "503", "503", "504", "drop", "drop", "short"]
 
 
 def gen_kc(rng, tier):
@@ -934,7 +948,7 @@ def describe(cases, impl):
             v = r.split(" ")[0]
             verdicts[v] = verdicts.get(v, 0) + 1
         if f[0] == "getremote":
-            k = "remote:" + r.split(" ")[0] + ("" if r.endswith("| -") else "+forwarded")
+            k = "remote:" + r.split(" ")[0] + ("" if r.endswith("| -") else "+forwarded") + ("" if len(f) < 9 or f[8] == "ok" else "/fault")
             status[k] = status.get(k, 0) + 1
         if f[0] in ("get", "put", "getnow", "geturl"):
             s = r.split(" ")[0]
